@@ -1,17 +1,18 @@
-(* scratch: call_rcu fork handshake.  Helpers check the PAUSE flag at the top of their loop (when their private batch is empty),
-   unregister and raise PAUSED; call_rcu_before_fork raises PAUSE on every helper and waits for every PAUSED.  At the fork every
+(* call_rcu fork handshake.  Helpers check the PAUSE flag at the top of their loop (when their private batch is empty),
+   unregister (HUnreg: rcu_unregister_thread() has returned) and only then raise PAUSED (HPause); after PAUSE is cleared they clear PAUSED (HResume) and
+   register again (HReg); call_rcu_before_fork raises PAUSE on every helper and waits for every PAUSED.  At the fork every
    helper is parked: unregistered, outside any grace period, with an empty private batch, so every pending callback sits in a
    queue — which is what the parent keeps and the child inherits and merges. *)
 From Coq Require Import List Arith Bool Lia.
 Import ListNotations.
 
-Inductive hphase := H_Idle | H_Spliced | H_Invoking | H_Paused.
+Inductive hphase := H_Idle | H_Spliced | H_Invoking | H_Paused | H_Unreg (* unregistered, PAUSED not yet raised *) | H_Resumed (* PAUSED cleared, not yet registered again *).
 Record helper := { hph : hphase; hq : list nat; hbatch : list nat; hdone : list nat; hreg : bool; pause : bool; paused : bool }.
 Inductive fpc := F_Idle | F_Wait | F_Forked | F_Done.
 Record st := { hp : nat -> helper; fp : fpc; child : option (list nat) (* ghost: the merged queue the child starts with *) }.
 Section FORK.
 Variable nh : nat.   (* helpers 0 .. nh-1 exist *)
-Inductive choice := CCall (h c : nat) | HSplice (h : nat) | HSync (h : nat) | HInvoke (h : nat) | HPause (h : nat) | HResume (h : nat) | FBegin | FFork | FEnd.
+Inductive choice := CCall (h c : nat) | HSplice (h : nat) | HSync (h : nat) | HInvoke (h : nat) | HPause (h : nat) | HResume (h : nat) | FBegin | FFork | FEnd | HUnreg (h : nat) | HReg (h : nat).
 Definition upd (f : nat -> helper) (k : nat) (v : helper) : nat -> helper := fun x => if Nat.eqb x k then v else f x.
 Definition all_paused (s : st) : bool := forallb (fun h => paused (hp s h)) (seq 0 nh).
 Definition none_paused (s : st) : bool := forallb (fun h => negb (paused (hp s h))) (seq 0 nh).
@@ -33,11 +34,11 @@ Definition exec (c : choice) (s : st) : st :=
       | _, _ => s end
   | HPause h => let x := hp s h in
       match hph x with
-      | H_Idle => if pause x then seth h {| hph := H_Paused; hq := hq x; hbatch := hbatch x; hdone := hdone x; hreg := false; pause := pause x; paused := true |} else s
+      | H_Unreg => seth h {| hph := H_Paused; hq := hq x; hbatch := hbatch x; hdone := hdone x; hreg := hreg x; pause := pause x; paused := true |}
       | _ => s end
   | HResume h => let x := hp s h in
       match hph x with
-      | H_Paused => if pause x then s else seth h {| hph := H_Idle; hq := hq x; hbatch := hbatch x; hdone := hdone x; hreg := true; pause := pause x; paused := false |}
+      | H_Paused => if pause x then s else seth h {| hph := H_Resumed; hq := hq x; hbatch := hbatch x; hdone := hdone x; hreg := hreg x; pause := pause x; paused := false |}
       | _ => s end
   | FBegin => match fp s with
               | F_Idle => {| hp := fun h => let x := hp s h in {| hph := hph x; hq := hq x; hbatch := hbatch x; hdone := hdone x; hreg := hreg x; pause := true; paused := paused x |}; fp := F_Wait; child := child s |}
@@ -48,10 +49,18 @@ Definition exec (c : choice) (s : st) : st :=
   | FEnd => match fp s with
             | F_Forked => {| hp := fun h => let x := hp s h in {| hph := hph x; hq := hq x; hbatch := hbatch x; hdone := hdone x; hreg := hreg x; pause := false; paused := paused x |}; fp := F_Idle (* the parent may fork again *); child := child s |}
             | _ => s end
+  | HUnreg h => let x := hp s h in     (* rcu_unregister_thread() completed: only from the top of the loop, with PAUSE seen *)
+      match hph x with
+      | H_Idle => if pause x then seth h {| hph := H_Unreg; hq := hq x; hbatch := hbatch x; hdone := hdone x; hreg := false; pause := pause x; paused := paused x |} else s
+      | _ => s end
+  | HReg h => let x := hp s h in       (* rcu_register_thread() completed after PAUSED was cleared *)
+      match hph x with
+      | H_Resumed => seth h {| hph := H_Idle; hq := hq x; hbatch := hbatch x; hdone := hdone x; hreg := true; pause := pause x; paused := paused x |}
+      | _ => s end
   end.
 
 Definition hinv (x : helper) : Prop :=
-  (paused x = true <-> hph x = H_Paused) /\ (hph x = H_Paused -> hbatch x = [] /\ hreg x = false) /\ (hph x = H_Idle -> hbatch x = []).
+  (paused x = true <-> hph x = H_Paused) /\ (hph x = H_Paused \/ hph x = H_Unreg \/ hph x = H_Resumed -> hbatch x = [] /\ hreg x = false) /\ (hph x = H_Idle -> hbatch x = []).
 Definition Inv (s : st) : Prop := forall h, hinv (hp s h).
 
 Lemma upd_same f k v : upd f k v k = v.  Proof. unfold upd. now rewrite Nat.eqb_refl. Qed.
@@ -61,23 +70,35 @@ Proof. unfold upd. intros H. destruct (Nat.eqb_spec x k); [contradiction|reflexi
 Lemma Inv_seth s h x : Inv s -> hinv x -> Inv {| hp := upd (hp s) h x; fp := fp s; child := child s |}.
 Proof. intros HI Hx h0. cbn [hp]. destruct (Nat.eq_dec h0 h) as [->|Hne]; [rewrite upd_same; exact Hx|rewrite upd_other by exact Hne; apply HI]. Qed.
 
+Ltac hsolve A B Cc := unfold hinv; cbn [hph hq hbatch hdone hreg pause paused]; repeat split; intros;
+  repeat match goal with H : _ \/ _ |- _ => destruct H end; try discriminate; try reflexivity; try tauto;
+  try (match goal with H : paused _ = true |- _ => apply A in H; discriminate end);
+  try (apply B; tauto); try (apply Cc; reflexivity).
 Lemma Inv_exec s c : Inv s -> Inv (exec c s).
 Proof.
-  intros HI. destruct c as [h c0|h|h|h|h|h| | |]; unfold exec; cbv zeta.
+  intros HI. destruct c as [h c0|h|h|h|h|h| | | |h|h]; unfold exec; cbv zeta.
   - apply Inv_seth; [exact HI|]. destruct (HI h) as (A & B & Cc). unfold hinv; cbn. tauto.
   - destruct (HI h) as (A & B & Cc). destruct (hph (hp s h)) eqn:Ep; try exact HI. destruct (hq (hp s h)) eqn:Eq; [exact HI|].
-    apply Inv_seth; [exact HI|]. unfold hinv; cbn. repeat split; try discriminate. intros H. apply A in H. discriminate.
+    apply Inv_seth; [exact HI|]. hsolve A B Cc.
   - destruct (HI h) as (A & B & Cc). destruct (hph (hp s h)) eqn:Ep; try exact HI.
-    apply Inv_seth; [exact HI|]. unfold hinv; cbn. repeat split; try discriminate. intros H. apply A in H. discriminate.
+    apply Inv_seth; [exact HI|]. hsolve A B Cc.
   - destruct (HI h) as (A & B & Cc). destruct (hph (hp s h)) eqn:Ep; try exact HI. destruct (hbatch (hp s h)) as [|c0 rest] eqn:Eb; [exact HI|].
-    apply Inv_seth; [exact HI|]. unfold hinv; cbn. destruct rest; repeat split; try discriminate; try reflexivity; intros H; apply A in H; discriminate.
-  - destruct (HI h) as (A & B & Cc). destruct (hph (hp s h)) eqn:Ep; try exact HI. destruct (pause (hp s h)); [|exact HI].
-    apply Inv_seth; [exact HI|]. unfold hinv; cbn. repeat split; try discriminate; try reflexivity. apply Cc. reflexivity.
-  - destruct (HI h) as (A & B & Cc). destruct (hph (hp s h)) eqn:Ep; try exact HI. destruct (pause (hp s h)); [exact HI|].
-    apply Inv_seth; [exact HI|]. unfold hinv; cbn. repeat split; try discriminate. intros _. apply B. reflexivity.
+    apply Inv_seth; [exact HI|]. destruct rest; hsolve A B Cc.
+  - (* HPause: from H_Unreg *)
+    destruct (HI h) as (A & B & Cc). destruct (hph (hp s h)) eqn:Ep; try exact HI.
+    apply Inv_seth; [exact HI|]. destruct (B (or_intror (or_introl eq_refl))) as [B1 B2]. hsolve A B Cc; assumption.
+  - (* HResume *)
+    destruct (HI h) as (A & B & Cc). destruct (hph (hp s h)) eqn:Ep; try exact HI. destruct (pause (hp s h)); [exact HI|].
+    apply Inv_seth; [exact HI|]. destruct (B (or_introl eq_refl)) as [B1 B2]. hsolve A B Cc; assumption.
   - destruct (fp s); exact HI.
   - destruct (fp s); try exact HI. destruct (all_paused s); exact HI.
   - destruct (fp s); exact HI.
+  - (* HUnreg *)
+    destruct (HI h) as (A & B & Cc). destruct (hph (hp s h)) eqn:Ep; try exact HI. destruct (pause (hp s h)); [|exact HI].
+    apply Inv_seth; [exact HI|]. pose proof (Cc eq_refl) as C1. hsolve A B Cc; try assumption.
+  - (* HReg *)
+    destruct (HI h) as (A & B & Cc). destruct (hph (hp s h)) eqn:Ep; try exact HI.
+    apply Inv_seth; [exact HI|]. destruct (B (or_intror (or_intror eq_refl))) as [B1 B2]. hsolve A B Cc; assumption.
 Qed.
 
 (* at the fork step every helper is parked, unregistered, with an empty private batch: all pending callbacks are in the queues *)
@@ -87,7 +108,7 @@ Theorem fork_helpers_quiescent s : Inv s -> fp s = F_Wait -> all_paused s = true
 Proof.
   intros HI Hf Ha. split.
   - intros h Hh. unfold all_paused in Ha. rewrite forallb_forall in Ha. pose proof (Ha h ltac:(apply in_seq; lia)) as Hp0.
-    destruct (HI h) as (A & B & _). pose proof (proj1 A Hp0) as Hp. destruct (B Hp) as [Hb Hr]. auto.
+    destruct (HI h) as (A & B & _). pose proof (proj1 A Hp0) as Hp. destruct (B (or_introl Hp)) as [Hb Hr]. auto.
   - unfold exec. rewrite Hf, Ha. reflexivity.
 Qed.
 
@@ -97,7 +118,7 @@ Qed.
 Definition helper0 : helper := {| hph := H_Idle; hq := []; hbatch := []; hdone := []; hreg := true; pause := false; paused := false |}.
 Definition init : st := {| hp := fun _ => helper0; fp := F_Idle; child := None |}.
 Lemma Inv_init : Inv init.
-Proof. intros h. unfold hinv, init, helper0; cbn. repeat split; intros; try discriminate; auto. Qed.
+Proof. intros h. unfold hinv, init, helper0; cbn. repeat split; intros; repeat match goal with H : _ \/ _ |- _ => destruct H end; try discriminate; auto. Qed.
 Definition run (cs : list choice) (s : st) : st := fold_left (fun x c => exec c x) cs s.
 Lemma Inv_run cs : forall s, Inv s -> Inv (run cs s).
 Proof. induction cs as [|c cs IH]; intros s H; cbn; [exact H|apply IH, Inv_exec, H]. Qed.
